@@ -13,9 +13,20 @@ import ast
 
 from .. import analysis
 from ..astutil import calls_in, call_name, where, kw, local_assignments, atoms_at
-from ..symtext import Expander, effect_calls
+from ..symtext import Expander, effect_calls, canon_text, canon_expr
 from ..cfg import build_cfg, enclosing_handlers
-from ..model import AnalysisError, FuncInfo, unparse, walk_no_nested
+from ..model import AnalysisError, FuncInfo, unparse, walk_no_nested, canonical_name
+from ..astutil import template_parts
+
+_PROG = [None]
+
+
+def _cn(c, f):
+    """canonical (import style independent) name of the callee"""
+    try:
+        return canonical_name(_PROG[0], f, c.func) or call_name(c)
+    except Exception:
+        return call_name(c)
 
 DECIDED = [
     "ESC-3 in run_conversion (odmlconvert, odmltordf) every call of the per-file loop that can fail is inside try/except Exception whose handler reports; no raise/break/return in the loop",
@@ -37,6 +48,7 @@ DESTRUCTIVE = ("os.remove", "os.unlink", "os.rename", "os.replace", "os.rmdir", 
 def run(prog, rep):
     rep.decided = DECIDED
     rep.not_decided = NOT_DECIDED
+    _PROG[0] = prog
     an = analysis.get(prog)
     an.note_coverage(rep)
     S = an.s
@@ -228,22 +240,25 @@ def run(prog, rep):
     x = Expander(cd, inline=prog)
     ind, outd = cd.params[1], cd.params[2]
     IN = "os.path.join(%s, '')" % ind
-    want = "os.path.join(os.path.dirname(os.path.dirname(%s)), os.path.basename(os.path.dirname(%s)) + '_' + %s)" % (IN, IN, cd.params[4])
+    want = "os.path.join(os.path.dirname(os.path.dirname(%s)), TEMPLATE(os.path.basename(os.path.dirname(%s)), '_', %s))" % (IN, IN, cd.params[4])
+
+    def ctext(e, n=None):
+        return canon_text(prog, cd, x.expand(e, n))
     g = build_cfg(cd)
     implicit = [n for n in g.nodes if n.kind == "stmt" and isinstance(n.ast, ast.Assign) and unparse(n.ast.targets[0]) == outd
                 and ("%s is None" % outd, True) in [(t0, p0) for t0, p0, _ in atoms_at(g, n)]]
-    rep.check(len(implicit) == 1 and x.text(implicit[0].ast.value, implicit[0]) == want, "FC-1", "implicit output directory differs from the input directory", "ok",
-              "the implicit output directory is no longer <parent>/<input dir name>_<format>: %s" % [x.text(n.ast.value, n) for n in implicit], cd.where,
+    rep.check(len(implicit) == 1 and ctext(implicit[0].ast.value, implicit[0]) == want, "FC-1", "implicit output directory differs from the input directory", "ok",
+              "the implicit output directory is no longer <parent>/<input dir name>_<format>: %s" % [ctext(n.ast.value, n) for n in implicit], cd.where,
               witness="outputs written into the input directory")
     effs = effect_calls(prog, cd, lambda c: isinstance(c.func, ast.Attribute) and c.func.attr == "_convert_file" and len(c.args) >= 2)
     ok = len(effs) == 2
     shown = []
     for e in effs:
-        c = e.call
+        c = canon_expr(prog, cd, e.call)
         a0 = unparse(c.args[0])
         n0 = set(y.id for y in ast.walk(c.args[0]) if isinstance(y, ast.Name))
         e1 = c.args[1]
-        first = e1.args[0] if isinstance(e1, ast.Call) and call_name(e1) == "os.path.join" and e1.args else None
+        first = e1.args[0] if isinstance(e1, ast.Call) and unparse(e1.func) == "os.path.join" and e1.args else None
         n1 = set(y for y in [getattr(z, "id", None) for z in ast.walk(first)] if y) if first is not None else set()
         shown.append((a0[:60], unparse(e1)[:60]))
         ok = ok and a0.startswith("os.path.join(") and ind in n0 and outd not in n0 and outd in n1
@@ -252,20 +267,20 @@ def run(prog, rep):
     inp, outp = cf.params[1], cf.params[2]
     fx = Expander(cf)
     for c in calls_in(cf.node):
-        fn = call_name(c)
-        if fn.endswith(("write_to_file", "write_file")) or fn == "odml.save":
-            arg = c.args[-1] if fn == "odml.save" else c.args[0]
+        fn = _cn(c, cf)
+        if fn.endswith(("write_to_file", "write_file")) or fn in ("odml.save", "fileio.save"):
+            arg = c.args[-1] if fn in ("odml.save", "fileio.save") else c.args[0]
             names = set(y.id for y in ast.walk(fx.expand(arg)) if isinstance(y, ast.Name))
             rep.check(outp in names and inp not in names, "FC-1", "_convert_file: %s writes output_path" % fn[-25:], "ok",
                       "%s writes to %s" % (fn, fx.text(arg)), where(cf, c), witness="the input file is overwritten")
-        if fn in ("odml.load", "VersionConverter"):
+        if fn in ("odml.load", "fileio.load", "VersionConverter", "tools.converters.version_converter.VersionConverter"):
             rep.check(fx.text(c.args[0]) == inp, "FC-1", "_convert_file: %s reads input_path" % fn, "ok", "%s is applied to %s" % (fn, fx.text(c.args[0])), where(cf, c))
     rep.assume("tempfile.mkdtemp creates a new, empty directory; os.path.join/splitext/basename are pure")
 
 
 def _harmless(c, f, lp):
     """calls of the per-file loop that cannot fail on a bad file: path arithmetic, str(), writing to the report parameter."""
-    fn = call_name(c)
+    fn = _cn(c, f)
     if fn in ("str", "os.path.splitext", "os.path.basename", "os.path.join"):
         return True
     if isinstance(c.func, ast.Attribute):
@@ -326,32 +341,27 @@ def _list_globs(f, name, depth=0):
 
 def _out_path_shape(e, f):
     """(directory parameter | None, name_ok) for an expanded output path expression."""
-    if not (isinstance(e, ast.Call) and call_name(e) == "os.path.join" and len(e.args) == 2):
+    if not (isinstance(e, ast.Call) and _cn(e, f) == "os.path.join" and len(e.args) == 2):
         return None
     d, nm = e.args
-    stem = None
-    const = None
-    if isinstance(nm, ast.BinOp) and isinstance(nm.op, ast.Mod) and isinstance(nm.left, ast.Constant) and isinstance(nm.left.value, str):
-        const, stem = nm.left.value, nm.right
-        ok_fmt = const.count("%s") == 1 and const.count("%") == 1
-    elif isinstance(nm, ast.Call) and isinstance(nm.func, ast.Attribute) and nm.func.attr == "format" and isinstance(nm.func.value, ast.Constant) \
-            and isinstance(nm.func.value.value, str) and len(nm.args) == 1 and not nm.keywords:
-        const, stem = nm.func.value.value, nm.args[0]
-        ok_fmt = const.count("{}") == 1 and const.count("{") == 1
-    else:
+    parts = template_parts(None, nm)
+    holes = [v for k, v in (parts or []) if k == "hole"]
+    lits = "".join(v for k, v in (parts or []) if k == "lit")
+    if parts is None or len(holes) != 1 or not lits:
         return (d.id if isinstance(d, ast.Name) and d.id in f.params else None, False)
+    stem = holes[0]
     stem_ok = isinstance(stem, ast.Subscript) and isinstance(stem.slice, ast.Constant) and stem.slice.value == 0 \
-        and isinstance(stem.value, ast.Call) and call_name(stem.value) == "os.path.splitext" and len(stem.value.args) == 1 \
-        and isinstance(stem.value.args[0], ast.Call) and call_name(stem.value.args[0]) == "os.path.basename"
-    name_ok = bool(ok_fmt and stem_ok and "/" not in const and "\\" not in const and ".." not in const)
-    used = set(y.id for y in ast.walk(stem) if isinstance(y, ast.Name)) if stem is not None else set()
+        and isinstance(stem.value, ast.Call) and _cn(stem.value, f) == "os.path.splitext" and len(stem.value.args) == 1 \
+        and isinstance(stem.value.args[0], ast.Call) and _cn(stem.value.args[0], f) == "os.path.basename"
+    name_ok = bool(stem_ok and "/" not in lits and "\\" not in lits and ".." not in lits)
+    used = set(y.id for y in ast.walk(stem) if isinstance(y, ast.Name))
     dirp = d.id if isinstance(d, ast.Name) and d.id in f.params and d.id not in used else None
     return (dirp, name_ok)
 
 
 def _fresh_dir(e, f, depth=0):
     """is the expanded expression tempfile.mkdtemp(dir=<root>) with root = cwd / the -o option / another fresh directory?"""
-    if not (isinstance(e, ast.Call) and call_name(e) == "tempfile.mkdtemp"):
+    if not (isinstance(e, ast.Call) and _cn(e, f) == "tempfile.mkdtemp"):
         return False, "not a tempfile.mkdtemp(...) result: %s" % unparse(e)[:50]
     d = kw(e, "dir", None)
     if d is None:
@@ -361,10 +371,10 @@ def _fresh_dir(e, f, depth=0):
     if isinstance(d, ast.Name):
         rx = Expander(f)
         roots = [rx.expand(r) if not isinstance(r, ast.AugAssign) else r for r in local_assignments(f.node, d.id)]
-        good = bool(roots) and all(unparse(r) == "os.getcwd()" or (isinstance(r, ast.Subscript) and isinstance(r.slice, ast.Constant) and r.slice.value == "-o")
+        good = bool(roots) and all((isinstance(r, ast.Call) and _cn(r, f) == "os.getcwd" and not r.args) or (isinstance(r, ast.Subscript) and isinstance(r.slice, ast.Constant) and r.slice.value == "-o")
                                    for r in roots)
         return good, "root %s = %s" % (d.id, [unparse(r) for r in roots])
-    if unparse(d) == "os.getcwd()":
+    if isinstance(d, ast.Call) and _cn(d, f) == "os.getcwd" and not d.args:
         return True, "cwd"
     return False, "dir=%s" % unparse(d)[:40]
 
